@@ -638,18 +638,93 @@ func (i *interpreter) asn1Marshal(fr *frame, val iface, params string) value {
 	if model == nil {
 		model = []value{}
 	}
+	if !concrete && params == "" {
+		// remember what these bytes encode, so that Unmarshal of exactly these
+		// bytes into the same type can return the value (inverse axiom)
+		if i.ps.asn1Memo == nil {
+			i.ps.asn1Memo = map[string]asn1MemoEntry{}
+		}
+		i.ps.asn1Memo[bytesKey(model)] = asn1MemoEntry{t: val.t, v: val.v}
+	}
 	return tuple{model, iface{}}
+}
+
+type asn1MemoEntry struct {
+	t types.Type
+	v value
+}
+
+// bytesKey identifies a byte sequence by its concrete bytes and term identities.
+func bytesKey(bs []value) string {
+	var sb strings.Builder
+	for _, b := range bs {
+		switch b := b.(type) {
+		case uint8:
+			fmt.Fprintf(&sb, "%02x", b)
+		case symv:
+			fmt.Fprintf(&sb, "t%d.", b.t.ID)
+		}
+	}
+	return sb.String()
+}
+
+// deepCopy copies a value tree (fresh structs, arrays, slices and cells).
+func deepCopy(v value) value {
+	switch x := v.(type) {
+	case structure:
+		out := make(structure, len(x))
+		for k := range x {
+			out[k] = deepCopy(x[k])
+		}
+		return out
+	case array:
+		out := make(array, len(x))
+		for k := range x {
+			out[k] = deepCopy(x[k])
+		}
+		return out
+	case []value:
+		if x == nil {
+			return x
+		}
+		out := make([]value, len(x))
+		for k := range x {
+			out[k] = deepCopy(x[k])
+		}
+		return out
+	case iface:
+		return iface{t: x.t, v: deepCopy(x.v)}
+	case *value:
+		if x == nil {
+			return x
+		}
+		c := deepCopy(*x)
+		return &c
+	}
+	return v
 }
 
 // asn1Unmarshal runs the host's asn1.Unmarshal on concrete bytes.
 func (i *interpreter) asn1Unmarshal(fr *frame, data []value, val iface, params string) value {
-	bs, ok := valuesToBytes(data)
-	if !ok {
-		panic(unsupported("asn1.Unmarshal of symbolic bytes"))
-	}
 	pt, isPtr := val.t.Underlying().(*types.Pointer)
 	if !isPtr || val.v.(*value) == nil {
 		return tuple{[]value(nil), i.errorFromString("asn1: Unmarshal recipient value is nil or not a pointer")}
+	}
+	bs, ok := valuesToBytes(data)
+	if !ok {
+		// symbolic bytes: only the inverse of an earlier Marshal of the same type
+		if e, hit := i.ps.asn1Memo[bytesKey(data)]; hit && params == "" {
+			if types.Identical(e.t, pt.Elem()) {
+				i.ps.asn1Inverse++
+				store(pt.Elem(), val.v.(*value), deepCopy(e.v))
+				return tuple{[]value{}, iface{}}
+			}
+			// the same bytes parsed as a different structure: gopki only does
+			// this on its error paths to improve the message; a DER value of
+			// one of its key structures is not a valid value of another
+			return tuple{[]value(nil), i.errorFromString("asn1: structure error (different type)")}
+		}
+		panic(unsupported("asn1.Unmarshal of symbolic bytes that are not the output of an earlier Marshal"))
 	}
 	var rest []byte
 	var err error
